@@ -41,6 +41,13 @@ def scopeToks : List String :=
 
 def fixedToks : List String := punctToks ++ keywordToks ++ declaredToks ++ scopeToks
 
+/-- Words of the attribute macro's own output (stage 1: `#[derive(..)]`, `#[derive_where(..)]`), not part of an impl. -/
+def stage1Toks : List String := ["derive", "derive_where"]
+
+/-- Identifiers the source quotes on their own and splices behind a `::core::fmt::DebugStruct::` path (the renderer has
+them only as path segments: they are not in `fixedToks`, so `C14_vocabulary` would fail otherwise). -/
+def fragmentToks : List String := ["finish", "finish_non_exhaustive"]
+
 /-- A token that needs no `::` in front of it. -/
 def Free (U : String → Prop) (t : String) : Prop :=
   t ∈ fixedToks ∨ U t ∨ (∃ s, t = "__" ++ s) ∨ (∃ n : Nat, t = toString n) ∨ (∃ s, t = quoteStr s)
